@@ -107,11 +107,11 @@ func mainEngine(o *Out, scnFile string, seed int64, count int, modes string, var
 			for _, b := range base.Ctx0 {
 				usesCtx = usesCtx || b
 			}
-			kinds := []string{"cancel"}
-			if usesCtx {
-				kinds = []string{"cancel", "deadline"}
-			}
 			for v := 0; v < variants; v++ {
+				kinds := []string{"cancel"}
+				if usesCtx {
+					kinds = [][]string{{"cancel", "deadline"}, {"cause", "deadline"}, {"cancel", "cause"}}[(li+v)%3]
+				}
 				for _, ck := range kinds {
 					cfg := base
 					cfg.Nodes = append([]NodeCfg{}, base.Nodes...)
